@@ -3,7 +3,7 @@
    extracted to OCaml (Extract/Extract.v) and run at Zarith rationals. *)
 From Coq Require Import List Arith Bool.
 From PD Require Import Base.Field Base.Matrix Base.Solve Model.Gauss Model.Poly
-  Model.Prior Model.Solver Spec.RTS.
+  Model.Prior Model.Solver Model.Error Spec.RTS.
 Import ListNotations.
 
 Section GenRun.
@@ -117,4 +117,21 @@ Section GenRun.
       Some (flat_map (fun k => flat_map (fun l => enc_normal N c (nth k l dflt)) bl)
                      (seq 0 (S (length sts))))
     else None.
+
+  (* ---- C07: acceptance quantity.  norm_kind 0: scale-then-rms -> [norm^2];
+     1: rms-then-scale -> [mean abs err^2; mean ref^2] ---- *)
+  Definition g_error (cf : @config F) (est : estimator) (per_unit : bool)
+             (prev_u : list normal) (t_prop dt : F) (ref : list F) (atol rtol : F)
+             (norm_kind : nat) : option (list F) :=
+    match error_sq_components ginv cf est prev_u t_prop dt with
+    | None => None
+    | Some errs2 =>
+      let n0 := match est with ResidualStd => ode_k (cf_ode cf) | StateStd idx => idx end in
+      let n := if per_unit then S n0 else n0 in
+      let fac2 := step_factor2 dt n in
+      match norm_kind with
+      | O => Some [norm2_scale_then_rms errs2 fac2 ref atol rtol]
+      | _ => let p := parts_rms_then_scale errs2 fac2 ref in Some [fst p; snd p]
+      end
+    end.
 End GenRun.
